@@ -15,7 +15,10 @@ import (
 var smallAlpha = []rune{'a', 'b', 'c', ' ', '\t', '\n', '\r'}
 
 // Unicode edges.
-var edgeRunes = []rune{0, 0x7f, 0x80, 0x7ff, 0x800, 0xd7ff, 0xe000, 0xfffd, 0xffff, 0x10000, 0x10ffff, 0xe9, 0x4e16, 0x1f600, '\'', '\\', '"', '`', '$', '%'}
+var edgeRunes = []rune{0, 0x7f, 0x80, 0x7ff, 0x800, 0xd7ff, 0xe000, 0xfffd, 0xffff, 0x10000, 0x10ffff, 0xe9, 0x4e16, 0x1f600, '\'', '\\', '"', '`', '$', '%',
+	'\a', '\b', '\f', '\v', 0xfeff,
+	// code points whose low byte equals an ASCII letter of the small alphabet
+	0x161, 0x2262, 0x4e63, 0x120}
 
 func genRune(edge bool) *rapid.Generator[rune] {
 	return rapid.Custom(func(t *rapid.T) rune {
@@ -400,6 +403,7 @@ func Lexeme(t *rapid.T, m *lexnfa.Model, pi int, maxLen int) []byte {
 var hostileBytes = [][]byte{
 	{0xff}, {0xc0, 0x80}, {0xe0, 0x80}, {0xed, 0xa0, 0x80}, {0xf4, 0x90, 0x80, 0x80}, {0x80}, {0xbf},
 	{0xe4, 0xb8}, {0xf0, 0x9f, 0x98}, {0xc3}, {0xef, 0xbf, 0xbd}, {0xf8, 0x88, 0x80, 0x80, 0x80},
+	{0xef, 0xbb, 0xbf}, {0xef, 0xbb}, {0xff, 0xfe},
 }
 
 // LexInput draws an input for the lexer described by m.
@@ -409,6 +413,9 @@ func LexInput(t *rapid.T, m *lexnfa.Model, maxBytes int) []byte {
 	reps := m.Representatives()
 	alpha := append(append([]rune{}, smallAlpha...), reps...)
 	n := rapid.IntRange(0, 12).Draw(t, "pieces")
+	if rapid.IntRange(0, 15).Draw(t, "leadingBOM") == 0 {
+		out = append(out, 0xef, 0xbb, 0xbf) // a byte order mark at the very start
+	}
 	for i := 0; i < n && len(out) < maxBytes; i++ {
 		var k int
 		switch {
